@@ -30,33 +30,38 @@ class TraceVerdict:
         return self.end and self.nc is None and not self.pv
 
 
-def validate(trace_spec, traces, constants_cfg="", *, name=None, timeout=900, chunk=4000, extra_cfg=""):
-    """Returns (list of TraceVerdict aligned with traces, total states)."""
+def validate(trace_spec, traces, constants_cfg="", *, name=None, timeout=900, chunk=None, extra_cfg="", parallel=12, dfs=False):
+    """Returns (list of TraceVerdict aligned with traces, total states).  The batch is split
+    into chunks validated by concurrent single-worker TLC processes."""
+    from concurrent.futures import ThreadPoolExecutor
+
     verdicts = [TraceVerdict() for _ in traces]
-    states = 0
-    for start in range(0, len(traces), chunk):
+    if not traces:
+        return verdicts, 0
+    if chunk is None:
+        chunk = max(50, min(3000, -(-len(traces) // parallel)))
+    starts = list(range(0, len(traces), chunk))
+    cfg = "SPECIFICATION TraceSpec\n"
+    if constants_cfg:
+        cfg += "CONSTANTS\n" + constants_cfg + "\n"
+    cfg += "CONSTRAINT Monitor\nACTION_CONSTRAINT NCMonitor\n" + extra_cfg
+    d = tlc.subdir("traces-" + (name or trace_spec))
+
+    def one(start):
         part = traces[start : start + chunk]
-        d = tlc.subdir("traces-" + (name or trace_spec))
         path = os.path.join(d, "traces-%d.json" % start)
         with open(path, "w") as f:
             json.dump(part, f)
-        cfg = "SPECIFICATION TraceSpec\n"
-        if constants_cfg:
-            cfg += "CONSTANTS\n" + constants_cfg + "\n"
-        cfg += "CONSTRAINT Monitor\nACTION_CONSTRAINT NCMonitor\n" + extra_cfg
-        res = tlc.run(
-            trace_spec,
-            cfg,
-            name=(name or trace_spec) + "-%d" % start,
-            workers=1,
-            timeout=timeout,
-            env={"TRACE_FILE": path},
-            heap="6g",
-        )
+        res = tlc.run(trace_spec, cfg, name=(name or trace_spec) + "-%d" % start, workers=1, timeout=timeout, env={"TRACE_FILE": path}, heap="3g", dfs=dfs)
+        os.unlink(path)
+        return start, res
+
+    states = 0
+    with ThreadPoolExecutor(max_workers=parallel) as ex:
+        results = list(ex.map(one, starts))
+    for start, res in results:
         if res.timed_out or not res.ok:
-            raise tlc.MachineryError(
-                "trace validation with %s failed (%s)\n%s" % (trace_spec, res.error or "timeout", res.out[-3000:])
-            )
+            raise tlc.MachineryError("trace validation with %s failed (%s)\n%s" % (trace_spec, res.error or "timeout", res.out[-3000:]))
         states += res.distinct
         for p in res.prints:
             tag = p[0]
@@ -71,13 +76,11 @@ def validate(trace_spec, traces, constants_cfg="", *, name=None, timeout=900, ch
             elif tag == "END":
                 v.end = True
                 v.consumed = p[2]
+                # several END lines (branching trace specs): conforming if any branch conforms
+                v.info.append(("end_nc", p[3]))
             elif tag == "INFO":
-                v.info.append(p[2:])
-        os.unlink(path)
+                v.info.append(tuple(p[2:]))
     stalled = [i for i, v in enumerate(verdicts) if not v.end]
     if stalled:
-        raise tlc.MachineryError(
-            "%d trace(s) were not consumed to the end by %s (malformed event?), first: %s"
-            % (len(stalled), trace_spec, json.dumps(traces[stalled[0]])[:1500])
-        )
+        raise tlc.MachineryError("%d trace(s) were not consumed to the end by %s (malformed event?), first: %s" % (len(stalled), trace_spec, json.dumps(traces[stalled[0]])[:1500]))
     return verdicts, states
